@@ -7,12 +7,18 @@
 (* differing part); C04 is evaluated by TLC on the logged final content.       *)
 EXTENDS HCMNL, TLC, Json, IOUtils, TLCExt
 Traces == JsonDeserialize(IOEnv.TRACE_FILE).traces
+TableFromFile == JsonDeserialize(IOEnv.TRACE_FILE).law_table      \* used by Trace_HCM_table.cfg
+Tol == IF LawId = "table" THEN 8 ELSE 0        \* integer image of real-law values: sums of rounded values may differ by a few units
 VARIABLES tid, l, st, verdict
 vars == <<tid, l, st, verdict>>
 Events(t) == Traces[t].events
 
-RowKey(w) == <<w.lmin, w.lmax, w.smin, w.smax, w.emin, w.emax, w.eminLF, w.emaxLF, w.closed, w.zero, w.run>>
-Keys(rows) == [k \in 1..Len(rows) |-> RowKey(rows[k])]
+NearI(x, y) == x - y <= Tol /\ y - x <= Tol
+RowNear(a, b) == /\ a.lmin = b.lmin /\ a.lmax = b.lmax /\ a.closed = b.closed /\ a.zero = b.zero /\ a.run = b.run
+                 /\ NearI(a.smin, b.smin) /\ NearI(a.smax, b.smax) /\ NearI(a.emin, b.emin) /\ NearI(a.emax, b.emax)
+                 /\ NearI(a.eminLF, b.eminLF) /\ NearI(a.emaxLF, b.emaxLF)
+RowsNear(r1, r2) == Len(r1) = Len(r2) /\ \A k \in 1..Len(r1) : RowNear(r1[k], r2[k])
+SeqNear(s1, s2) == Len(s1) = Len(s2) /\ \A k \in 1..Len(s1) : NearI(s1[k], s2[k])
 LoadKeys(rows) == [k \in 1..Len(rows) |-> <<rows[k].lmin, rows[k].lmax, rows[k].closed, rows[k].run>>]
 
 ModelStep(s, e) ==
@@ -23,8 +29,8 @@ ModelStep(s, e) ==
 Clause(s2, e) ==
   IF Len(s2.rows) # Len(e.rows) THEN "row_count"
   ELSE IF LoadKeys(s2.rows) # LoadKeys(e.rows) THEN "loads_flags_run"
-  ELSE IF Keys(s2.rows) # Keys(e.rows) THEN "stress_strain_columns"
-  ELSE IF s2.strains # e.strains THEN "strain_values"
+  ELSE IF ~RowsNear(s2.rows, e.rows) THEN "stress_strain_columns"
+  ELSE IF ~SeqNear(s2.strains, e.strains) THEN "strain_values"
   ELSE IF s2.nfirst # e.nfirst THEN "strain_values_first_run"
   ELSE "ok"
 
